@@ -354,7 +354,7 @@ fn expected_probes(prop: Prop) -> &'static [&'static str] {
         Prop::C09 => &["conn-removed-with-state", "send-to-dropped-receiver-failed", "input-from-removed-connection", "caller-disconnect-with-pending-call", "service-removed-with-pending-call", "owner-disconnect-closes-channel-end", "last-subscriber-disconnects", "create-channel-from-dropped-task", "introspection-query-continued-after-disconnect", "handler-returned-err", "connection-id-reused"],
         Prop::C10 => &["current-enumeration-nonempty", "bus-event-delivered", "bus-event-deduplicated-per-connection", "filter-removed", "start-while-started", "foreign-listener-cookie"],
         Prop::C11 => &["wrong-direction-message", "handler-returned-err", "gate-closed", "input-from-removed-connection", "introspection-reply-unknown-serial", "introspection-reply-from-wrong-connection", "call-duplicate-serial", "subscribe-without-serial", "create-service2-bad-info"],
-        Prop::C12 => &["handshake-ok", "handshake-incompatible", "gate-closed", "cross-epoch-payload", "call2-downgraded-for-old-callee", "old-callee-abort-suppressed", "subscribe-all-not-supported", "payload-at-depth-limit"],
+        Prop::C12 => &["handshake-ok", "handshake-incompatible", "gate-closed", "cross-epoch-payload", "call2-downgraded-for-old-callee", "old-callee-abort-suppressed", "subscribe-all-not-supported", "payload-at-depth-limit", "payload-all-kinds"],
         Prop::C14 => &["short-read", "short-write", "pipe-full-backpressure", "flush-completed", "frame>=8KiB-backpressure-boundary", "frame>=64KiB-reserve-step", "packetizer-spare-interface", "packetizer-extend-interface", "single-byte-chunks", "buffered-in-front", "transport-pair-run"],
         Prop::C06 => &["call-served", "call-value-checked", "call-dropped-at-once", "call-cancelled-mid-flight", "call-refused-or-aborted", "promise-held-until-teardown", "event-received", "proxy-dropped", "channel-session", "channel-item-delivered", "claim-ok", "claim-fails", "claim-cancelled", "establish-cancelled", "unbound-end-bound", "receiver-closed-early", "send-refused", "listener-started", "bus-event-received", "discoverer-created", "object-found", "lifetime-bound", "event-awaited", "bus-event-awaited", "held-promise-aborted", "receiver-closed-polled-while-open", "lost-wakeup-probe-evaluated", "abort-oracle-evaluated", "introspection-answered-by-peer", "introspection-answered-locally", "introspection-unavailable"],
         Prop::C15 => &["call-served", "channel-session", "listener-started", "discoverer-created", "conn-removed-with-state"],
